@@ -8,7 +8,7 @@
    delayed_binding and of the part of Wiring::finish that builds the rank graph; Rank.v for the
    ranking itself.  A program is a list of statements (label = position); an order is the sequence
    of labels in which they are executed.  "The dataflow" of statement l is its unfolding
-   [punf false prog fuel l]: definition, resolved types, scalars and, recursively, what feeds each input
+   [punf prog fuel l]: definition, resolved types, scalars and, recursively, what feeds each input
    — a function of the program alone.  A node whose behaviour is a function of its definition,
    types, scalars and input histories therefore produces a stream that is a function of its
    unfolding; the theorems below show the wired graph has, at every statement, exactly the
@@ -21,8 +21,8 @@ From Coq Require Import Arith Permutation.
 
 (* --- the interning key ----------------------------------------------------------------------- *)
 (* The key comparison used by the intern table is equality of the whole key
-   (definition, resolved schemas, InputKey list, scalars): no field OF THE KEY is left out.
-   What the key itself leaves out is the subject of [passive_marker_distinct_refuted] below. *)
+   (definition, resolved schemas, InputKey list, scalars): nothing is left out.  Since the repair
+   (hooks/fix_passive_marker_in_key.patch) an InputKey carries the passive marker of its slot too. *)
 Theorem intern_key_injective : forall a b : key, key_eqb a b = true <-> a = b.
 Proof. exact InternFacts.key_eqb_eq. Qed.
 Print Assumptions intern_key_injective.
@@ -38,22 +38,21 @@ Print Assumptions make_key_injective.
 (* ... and equal normalised inputs means: same number of inputs and, slot by slot, the same source
    (producing instance with path / placeholder / structure), the same rank flag and the same
    target path, where an empty target path stands for the slot's own index.  So swapped inputs,
-   a different producer, a different path or a different rank flag all change the key.
-   The PASSIVE marker of an input (`passive(port)`) does not occur on the right-hand side: the key
-   the code builds does not contain it. *)
+   a different producer, a different path, a different rank flag or a different PASSIVE marker
+   (`passive(port)`) all change the key. *)
 Theorem inputs_equal_slotwise : forall ins ins',
   key_inputs ins = key_inputs ins' <->
   length ins = length ins' /\
   forall j a b, nth_error ins j = Some a -> nth_error ins' j = Some b ->
-    in_src a = in_src b /\ in_rank a = in_rank b /\
+    in_src a = in_src b /\ in_rank a = in_rank b /\ in_passive a = in_passive b /\
     (match in_tpath a with [] => [(0 + j)%nat] | p => p end) = (match in_tpath b with [] => [(0 + j)%nat] | p => p end).
-Proof. exact (InternFacts.key_from_eq 0). Qed.
+Proof. exact (InternFacts.norm_from_eq 0). Qed.
 Print Assumptions inputs_equal_slotwise.
 
 (* --- which statements share a node ----------------------------------------------------------- *)
-(* Two statements that were given the same node agree on everything the key contains — same definition,
+(* Two statements that were given the same node are configured identically — same definition,
    same resolved schemas, same scalars, same inputs (by identity of the producing NODE, path, target
-   slot, rank flag; NOT the passive marker, see the refuted statement below) — and, if they
+   slot, rank flag, passive marker; [eff_inputs]: add_unique_node ignores markers) — and, if they
    are different statements, both are shareable (have an output, were not added as unique).
    Contrapositive: statements differing in any input, scalar or resolved type remain distinct. *)
 Theorem shared_only_if_identical : forall sharing prog order w l1 l2 i,
@@ -63,10 +62,20 @@ Theorem shared_only_if_identical : forall sharing prog order w l1 l2 i,
     nth_error prog l1 = Some (StNode d1 ins1) /\ nth_error prog l2 = Some (StNode d2 ins2) /\
     resolve_inputs (w_env w) (w_phs w) ins1 = Some r1 /\ resolve_inputs (w_env w) (w_phs w) ins2 = Some r2 /\
     nd_def d1 = nd_def d2 /\ nd_sch d1 = nd_sch d2 /\ nd_scal d1 = nd_scal d2 /\
-    key_inputs r1 = key_inputs r2 /\
+    key_inputs (eff_inputs d1 r1) = key_inputs (eff_inputs d2 r2) /\
     (l1 <> l2 -> interns d1 = true /\ interns d2 = true).
 Proof. exact InternFacts.run_shared_same_config. Qed.
 Print Assumptions shared_only_if_identical.
+
+(* In particular two different statements that share a node carry the same passive markers: nodes
+   differing in the marker of any input remain distinct. *)
+Theorem shared_only_if_same_markers : forall sharing prog order w l1 l2 i d1 ins1 d2 ins2,
+  NoDup order -> wire_prog sharing prog order = Ok w -> l1 <> l2 ->
+  alookup l1 (w_env w) = Some i -> alookup l2 (w_env w) = Some i ->
+  nth_error prog l1 = Some (StNode d1 ins1) -> nth_error prog l2 = Some (StNode d2 ins2) ->
+  map in_passive ins1 = map in_passive ins2.
+Proof. exact InternFacts.run_shared_same_markers. Qed.
+Print Assumptions shared_only_if_same_markers.
 
 (* Sinks (no output schema) and nodes added with add_unique_node never share a node with any other
    statement. *)
@@ -79,11 +88,12 @@ Print Assumptions sinks_distinct.
 
 (* --- sharing and statement order are unobservable -------------------------------------------- *)
 (* Whatever the order and whether or not sharing is on, the node a statement is given unfolds, to
-   every depth, to the dataflow the PROGRAM ascribes to that statement. *)
+   every depth, to the dataflow the PROGRAM ascribes to that statement — passive markers included
+   ([TIn] shows the marker in force on each input). *)
 Theorem graph_unfolds_to_program : forall sharing prog order w,
   complete_order prog order -> single_bind prog -> wire_prog sharing prog order = Ok w ->
   forall l d ins, nth_error prog l = Some (StNode d ins) ->
-  exists i, alookup l (w_env w) = Some i /\ forall fuel, gunf false w fuel i = punf false prog fuel l.
+  exists i, alookup l (w_env w) = Some i /\ forall fuel, gunf w fuel i = punf prog fuel l.
 Proof. exact InternFacts.run_unfolds. Qed.
 Print Assumptions graph_unfolds_to_program.
 
@@ -93,7 +103,7 @@ Theorem intern_preserves_dataflow : forall prog order w_shared w_unshared,
   wire_prog true prog order = Ok w_shared -> wire_prog false prog order = Ok w_unshared ->
   forall l d ins, nth_error prog l = Some (StNode d ins) ->
   exists i1 i0, alookup l (w_env w_shared) = Some i1 /\ alookup l (w_env w_unshared) = Some i0 /\
-                forall fuel, gunf false w_shared fuel i1 = gunf false w_unshared fuel i0.
+                forall fuel, gunf w_shared fuel i1 = gunf w_unshared fuel i0.
 Proof. exact InternFacts.intern_preserves_dataflow. Qed.
 Print Assumptions intern_preserves_dataflow.
 
@@ -104,7 +114,7 @@ Theorem order_independent : forall prog o1 o2 w1 w2,
   wire_prog true prog o1 = Ok w1 -> wire_prog true prog o2 = Ok w2 ->
   forall l d ins, nth_error prog l = Some (StNode d ins) ->
   exists i1 i2, alookup l (w_env w1) = Some i1 /\ alookup l (w_env w2) = Some i2 /\
-                forall fuel, gunf false w1 fuel i1 = gunf false w2 fuel i2.
+                forall fuel, gunf w1 fuel i1 = gunf w2 fuel i2.
 Proof. exact InternFacts.order_independent_unfold. Qed.
 Print Assumptions order_independent.
 
@@ -165,52 +175,42 @@ Proof. vm_compute. reflexivity. Qed.
 Example ex_loop_broken_built : match compile (ex_loop false) [0; 1; 2; 3; 4; 5]%nat with Built _ _ o _ => o | _ => [] end = [0; 1; 2; 3]%nat.
 Proof. vm_compute. reflexivity. Qed.
 Definition ex_w2 : wst := match wire_prog true ex_prog ex_o2 with Ok w => w | Err _ => w0 end.
-Example ex_unfold : gunf false ex_w2 3 (match alookup 6 (w_env ex_w2) with Some i => i | None => 99 end) = punf false ex_prog 3 6.
+Example ex_unfold : gunf ex_w2 3 (match alookup 6 (w_env ex_w2) with Some i => i | None => 99 end) = punf ex_prog 3 6.
 Proof. vm_compute. reflexivity. Qed.
 
-(* --- REFUTED on the faithful model (and on the code: known finding KF-C06-passive-marker-not-in-key) *)
-(* Full-strength statement of the property, which does NOT hold:
-     "statements that differ in any input [including the passive marker of an input] remain distinct":
-       forall sharing prog order w l1 l2 i d1 ins1 d2 ins2, NoDup order -> wire_prog sharing prog order = Ok w ->
-         alookup l1 (w_env w) = Some i -> alookup l2 (w_env w) = Some i ->
-         nth_error prog l1 = Some (StNode d1 ins1) -> nth_error prog l2 = Some (StNode d2 ins2) ->
-         map in_passive ins1 = map in_passive ins2.
-   Witness: x = src, y = src, sum(passive(x), y), sum(x, y) share one node. *)
+(* --- the OLD rule, kept as a named variant ---------------------------------------------------- *)
+(* Before hooks/fix_passive_marker_in_key.patch the key did not contain the passive marker
+   ([wire_prog_old], [make_key_old]).  Under that rule the two full-strength statements above fail:
+   x = src, y = src, sum(passive(x), y), sum(x, y) share one node, and which markers are in force on
+   it — hence the unfolding [gunf], which shows them — depends on the statement order.
+   A change that reverts the repair makes the implementation follow [wire_prog_old] again; the
+   correspondence and the oracle kind passive_marker_not_in_key then fail (mutants/C06/revert_passive_marker_fix). *)
+Theorem passive_marker_distinct_old_rule_refuted :
+  exists prog order w l1 l2 i d1 ins1 d2 ins2,
+    NoDup order /\ wire_prog_old true prog order = Ok w /\ l1 <> l2 /\
+    alookup l1 (w_env w) = Some i /\ alookup l2 (w_env w) = Some i /\
+    nth_error prog l1 = Some (StNode d1 ins1) /\ nth_error prog l2 = Some (StNode d2 ins2) /\
+    map in_passive ins1 <> map in_passive ins2.
+Proof. exact InternFacts.passive_marker_distinct_old_rule_refuted. Qed.
+Print Assumptions passive_marker_distinct_old_rule_refuted.
+
+Theorem order_independent_old_rule_refuted :
+  exists prog o1 o2 w1 w2 l i1 i2 fuel,
+    complete_order prog o1 /\ complete_order prog o2 /\ single_bind prog /\
+    wire_prog_old true prog o1 = Ok w1 /\ wire_prog_old true prog o2 = Ok w2 /\
+    alookup l (w_env w1) = Some i1 /\ alookup l (w_env w2) = Some i2 /\
+    gunf w1 fuel i1 <> gunf w2 fuel i2.
+Proof. exact InternFacts.order_independent_old_rule_refuted. Qed.
+Print Assumptions order_independent_old_rule_refuted.
+
+(* Under the repaired rule the pair is two nodes, each with its own active list, in either order. *)
 Definition ppin (l : nat) : input := {| in_src := SPeer l []; in_tpath := []; in_rank := true; in_passive := true |}.
 Definition px_prog : list stmt :=
   [StNode (dsrc 0 7) []; StNode (dsrc 0 8) []; StNode dadd [ppin 0; pin 1]; StNode dadd [pin 0; pin 1];
    StNode dsink [pin 2]; StNode dsink [pin 3]]%nat.
-Definition px_passive_first : list nat := [0; 1; 2; 3; 4; 5]%nat.
-Definition px_active_first : list nat := [0; 1; 3; 2; 4; 5]%nat.
-
-Theorem passive_marker_distinct_refuted :
-  exists prog order w l1 l2 i d1 ins1 d2 ins2,
-    NoDup order /\ wire_prog true prog order = Ok w /\ l1 <> l2 /\
-    alookup l1 (w_env w) = Some i /\ alookup l2 (w_env w) = Some i /\
-    nth_error prog l1 = Some (StNode d1 ins1) /\ nth_error prog l2 = Some (StNode d2 ins2) /\
-    map in_passive ins1 <> map in_passive ins2.
-Proof. exact InternFacts.passive_marker_distinct_refuted. Qed.
-Print Assumptions passive_marker_distinct_refuted.
-
-(* ... and with it order independence of what the shared node does: with the marker visible in the
-   unfolding ([gunf true]: the marker in force on the instance, i.e. the one of the statement that
-   created it), two complete orders of ONE program give different unfoldings at the same statement.
-   Full-strength statement that does NOT hold: [order_independent] with [gunf true]. *)
-Theorem order_independent_with_passive_refuted :
-  exists prog o1 o2 w1 w2 l i1 i2 fuel,
-    complete_order prog o1 /\ complete_order prog o2 /\ single_bind prog /\
-    wire_prog true prog o1 = Ok w1 /\ wire_prog true prog o2 = Ok w2 /\
-    alookup l (w_env w1) = Some i1 /\ alookup l (w_env w2) = Some i2 /\
-    gunf true w1 fuel i1 <> gunf true w2 fuel i2.
-Proof. exact InternFacts.order_independent_with_passive_refuted. Qed.
-Print Assumptions order_independent_with_passive_refuted.
-
-(* What does hold of the marker: the active-input list of a node is the one of the statement that
-   created it (first statement wins) — checked against the implementation by the acceptor
-   ([active_slots], RankRun.active_ok). *)
-Example px_first_wins :
-  (match compile px_prog px_passive_first with Built w _ _ _ => map active_slots (w_insts w) | _ => [] end,
-   match compile px_prog px_active_first with Built w _ _ _ => map active_slots (w_insts w) | _ => [] end)
-  = ([[]; []; [1]; [0]; [0]], [[]; []; [0; 1]; [0]; [0]])%nat.
+Example px_two_nodes :
+  (match compile px_prog [0; 1; 2; 3; 4; 5]%nat with Built w _ _ _ => map (fun it => (i_label it, active_slots it)) (w_insts w) | _ => [] end,
+   match compile px_prog [0; 1; 3; 2; 4; 5]%nat with Built w _ _ _ => map (fun it => (i_label it, active_slots it)) (w_insts w) | _ => [] end)
+  = ([(0, []); (1, []); (2, [1]); (3, [0; 1]); (4, [0]); (5, [0])],
+     [(0, []); (1, []); (3, [0; 1]); (2, [1]); (4, [0]); (5, [0])])%nat.
 Proof. vm_compute. reflexivity. Qed.
-
